@@ -4,7 +4,7 @@ import math
 
 import numpy as np
 
-from ..core import fb, fbs, unfb, close, fingerprint
+from ..core import fb, fbs, unfb, close, fingerprint, safe_oracle
 from ..synth import ShellModel
 
 
@@ -43,6 +43,7 @@ def drive(seq, zetas, seed):
     return z0, out
 
 
+@safe_oracle
 def oracle_first_crossing(args):
     """attempt at the first step at which 1 - prod exp(-G_i) (since the last attempt) exceeds the current threshold
     (60-digit arithmetic, ties within 1e-12 not judged); target by inverse CDF of g/G; reset to 0; thresholds from
@@ -57,12 +58,12 @@ def oracle_first_crossing(args):
         problems.append("first threshold %r is not the head of the user list %r" % (z0, zetas[0]))
     zi = 1
     zeta = z0
-    surv = mp.mpf(1)          # prod exp(-G_i) since the last attempt
+    Gsum = mp.mpf(0)          # sum of the totals since the last attempt: prod exp(-G_i) = exp(-Gsum)
     for k, (g, o) in enumerate(zip(seq, out)):
         G = sum(mp.mpf(x) for x in g)
-        surv = surv * mp.exp(-G)
-        acc = 1 - surv
-        tie = abs(acc - mp.mpf(zeta)) <= mp.mpf(10) ** -12
+        Gsum = Gsum + G
+        acc = -mp.expm1(-Gsum)          # 1 - prod exp(-G_i), accurate however small
+        tie = abs(acc - mp.mpf(zeta)) <= mp.mpf(10) ** -12 * max(acc, mp.mpf(zeta))     # relative: tiny thresholds are judged too
         want = acc > mp.mpf(zeta)
         if tie:
             # follow the implementation through the tie
@@ -73,7 +74,7 @@ def oracle_first_crossing(args):
         if o[0]:
             if o[2] != zeta:
                 problems.append("step %d: reported threshold %r, current is %r" % (k, o[2], zeta))
-            if not close(o[3], float(acc), 1.0):
+            if not close(o[3], float(acc), rtol=1e-9, atol=0.0):
                 problems.append("step %d: reported prob %r, accumulated is %s" % (k, o[3], mp.nstr(acc, 17)))
             if o[4] != 0.0:
                 problems.append("step %d: accumulation not reset (%r)" % (k, o[4]))
@@ -96,9 +97,9 @@ def oracle_first_crossing(args):
             elif o[5] != o[7]:
                 problems.append("step %d: new threshold %r is not the generator's next number %r" % (k, o[5], o[7]))
             zeta = o[5]
-            surv = mp.mpf(1)
+            Gsum = mp.mpf(0)
         else:
-            if not close(o[4], float(acc), 1.0):
+            if not close(o[4], float(acc), rtol=1e-9, atol=0.0):
                 problems.append("step %d: stored accumulation %r, should be %s" % (k, o[4], mp.nstr(acc, 17)))
             if o[5] != zeta:
                 problems.append("step %d: threshold changed without an attempt" % k)
@@ -111,10 +112,17 @@ ORACLES = {"first_crossing": oracle_first_crossing}
 def _gen_seq(rng, thorough):
     N = int(rng.integers(2, 9))
     K = int(rng.integers(5, 200 if thorough else 60))
-    regime = rng.choice(["tiny", "small", "mixed", "large", "zeros"])
+    regime = rng.choice(["tiny", "small", "mixed", "large", "zeros", "tiny-thr", "tiny-stretch"])
     seq = []
-    for _ in range(K):
-        if regime == "tiny":
+    for k in range(K):
+        if regime == "tiny-thr":
+            # per-step totals far below 1e-12 AND thresholds of the same order (set below): hops still have to happen
+            g = rng.random(N) * 10 ** rng.uniform(-17, -12.5)
+        elif regime == "tiny-stretch":
+            # ordinary steps now and then, long stretches of steps with totals < 1e-12 in between; the thresholds (set
+            # below) sit inside a stretch
+            g = rng.random(N) * (rng.uniform(0.01, 0.2) if k % 17 == 0 else 10 ** rng.uniform(-13.5, -12.2))
+        elif regime == "tiny":
             g = rng.random(N) * 10 ** rng.uniform(-300, -6)
         elif regime == "small":
             g = rng.random(N) * 10 ** rng.uniform(-3, -1)
@@ -132,12 +140,32 @@ def _gen_seq(rng, thorough):
     zetas = [float(x) for x in rng.random(nz)]
     if regime == "large" and rng.random() < 0.5:
         zetas = [float(x) for x in rng.random(nz) * 0.2]      # many successive hops
+    if regime in ("tiny-thr", "tiny-stretch"):
+        # thresholds placed where the exact accumulated probability 1-prod exp(-G) crosses inside the sequence:
+        # after a random number of further steps, strictly between two partial sums (never on one)
+        zetas, k = [], 0
+        while k < K - 3 and len(zetas) < 6:
+            if regime == "tiny-thr":
+                j = k + int(rng.integers(1, 6))
+            else:
+                j = (k // 17) * 17 + 17 * int(rng.integers(0, 2)) + int(rng.integers(3, 15))
+            if j >= K or j <= k:
+                break
+            G = [math.fsum(seq[i]) for i in range(k, j + 1)]
+            lo, hi = -math.expm1(-math.fsum(G[:-1])), -math.expm1(-math.fsum(G))
+            if hi > lo * (1 + 1e-6) and hi > 0:
+                zetas.append(float(lo + (hi - lo) * rng.uniform(0.2, 0.8)))
+            else:
+                break
+            k = j + 1
+        zetas.append(2.0)                                       # unreachable from here on: the list never runs out mid-run
     return seq, zetas, str(regime)
 
 
 def run(ctx):
     ctx.rule = ("sequences of 5..200 per-step rate vectors (N=2..8) in regimes tiny(1e-300..1e-6)/small/mixed/large(>1 "
-                "totals)/with zero steps, user threshold lists of length 0..7 followed by the generator; driven through "
+                "totals)/with zero steps/tiny totals (<1e-12) with thresholds of the same order/long stretches of tiny-total "
+                "steps with the threshold inside the stretch, user threshold lists of length 0..7 followed by the generator; driven through "
                 "TrajectoryCum.hopper directly. Non-trivial = at least one attempt and N>=3 or >=2 successive attempts; "
                 "distinct by (regime, N, #attempts bucket, user-list length)")
     ctx.assumptions += ["np.longdouble accumulation in the implementation vs double in the model: inside 1e-9 tolerance; "
@@ -177,7 +205,8 @@ def run(ctx):
                 acc_m = mp_ if matt else mpc
                 acc_i = imp[3] if imp[0] else imp[4]
                 zcur = mz if matt else mza
-                if abs(acc_m - acc_i) <= 1e-12 and abs(acc_i - (imp[2] if imp[0] else imp[5])) <= 1e-12:
+                zc = imp[2] if imp[0] else imp[5]
+                if abs(acc_m - acc_i) <= 1e-12 * max(abs(acc_i), abs(acc_m)) and abs(acc_i - zc) <= 1e-12 * max(abs(acc_i), abs(zc)):
                     ctx.near_ties += 1
                     desync = True
                     break
@@ -186,10 +215,10 @@ def run(ctx):
             if matt:
                 cdf = np.cumsum(np.array(seq[k]) / math.fsum(seq[k]))
                 near = np.min(np.abs(cdf / cdf[-1] - imp[6])) < 1e-12
-                if (mt != imp[1] and not near) or mz != imp[2] or not close(mp_, imp[3], 1.0) or mpc != imp[4] or mza != imp[5]:
+                if (mt != imp[1] and not near) or mz != imp[2] or not close(mp_, imp[3], rtol=1e-9, atol=0.0) or mpc != imp[4] or mza != imp[5]:
                     bad = "step %d: model (%d,%r,%r,%r,%r) impl %r" % (k, mt, mz, mp_, mpc, mza, imp)
                     break
-            elif not close(mpc, imp[4], 1.0) or mza != imp[5]:
+            elif not close(mpc, imp[4], rtol=1e-9, atol=0.0) or mza != imp[5]:
                 bad = "step %d: model prob_cum %r zeta %r; impl %r %r" % (k, mpc, mza, imp[4], imp[5])
                 break
         if bad:
